@@ -65,10 +65,11 @@ ERROR_CLASSES = [
     ('parameter-pack', r'parameter pack'),
     ('own-initializer', r'before deduction of .auto.|cannot appear in its own initializer'),
     ('not-callable', r'cannot be used as a function|is not a function or function pointer'),
-    ('constructor-name', r'is a constructor name|cannot refer to type member|invalid use of .(class|struct|template-name)|'
-                         r'names the constructor|cannot convert .* in return|no viable conversion from returned value'),
     ('std-hidden', r'not a member of .*\bstd\b|in .*::std.|.std. is not a class, namespace|aka .*is not a class, namespace|'
-                   r'no (template|member|type) named .* in .*std'),
+                   r'no (template|member|type) named .* in .*std|::std. used without template arguments|'
+                   r'std. is not a class|::std<'),
+    ('constructor-name', r'is a constructor name|cannot refer to type member|invalid use of |'
+                         r'names the constructor|cannot convert .* in return|no viable conversion from returned value'),
     ('function-hides-type', r'redefinition of .* as different kind of symbol|conflicting declaration of template|'
                             r'does not name a type|no type named|must be a type|type/value mismatch'),
     ('no-matching-function', r'no matching function for call'),
